@@ -62,6 +62,7 @@ def main(tier, seed):
     parallel(lambda k: ref.build(k[0], list(k[1])), ref_keys, workers=3)
 
     first_trace = None
+    pipeline_done = 0
     for name, (st, bn), procs, gate in scenarios:
         root = work / ("sc-" + name)
         shared = Sandbox(root / "shared", template=True)
@@ -121,6 +122,12 @@ def main(tier, seed):
             chk.extra.setdefault("rejected_traces", []).append(name)
         elif first_trace is None and any(e["ev"] == "link-build-done" for e in events):
             first_trace = events
+        # B1 (whole process trees): every event of every process of the scenario against Pipeline.tla -
+        # shared directories alive while children run, writes only under the writer's own directory,
+        # cache keys stable, imports compiled first, link last and under the lock, clean-up last
+        if tier == "thorough" or pipeline_done < 2:
+            pipeline_done += 1
+            validate_pipeline(chk, events, root / "src0", shared, label=f"scenario-{name}", cold_gk=True, linker_init=(st, bn))
         left = [x for x in shared.tmp_leftovers() if x.startswith("garble-shared")]
         if left:
             chk.extra.setdefault("tmp_leftovers", []).append([name, left])
